@@ -43,6 +43,15 @@ HdrAlg(j) == StrField(j.hdr, "alg")
 \* jwks: set of [key, jwk] records relating confirmed JWKs (JSON) to key identifiers
 JwkKey(jwks, j) == IF \E r \in jwks : r.jwk = j THEN (CHOOSE r \in jwks : r.jwk = j).key ELSE ""
 
+\* The key the caller's resolver returns for a token: a constant, a function of the payload's iss, or a function of the
+\* protected header's kid (with a default for tokens that name none).  "" = the resolver knows no key.
+ResolverKeyOf(res, jwt) ==
+  CASE res.kind = "const" -> res.key
+    [] res.kind = "byiss" -> (LET i == StrField(jwt.pl, "iss") IN IF i \in DOMAIN res.map THEN res.map[i] ELSE "")
+    [] res.kind = "bykid" -> (IF jwt.hdr # NONE /\ IsObj(jwt.hdr) /\ Has(jwt.hdr, "kid")
+                              THEN (LET k == StrField(jwt.hdr, "kid") IN IF k \in DOMAIN res.map THEN res.map[k] ELSE "")
+                              ELSE res.dflt)
+
 \* ---- the stages of verification (draft-07 8.1 and 8.3), each a predicate over the abstract message ----
 ParseOK(m) == m.jwt.hdr # NONE /\ m.jwt.pl # NONE /\ IsObj(m.jwt.hdr) /\ IsObj(m.jwt.pl)
 SigOK(j, key, ledger, keyFam) ==
